@@ -589,6 +589,7 @@ def prop_vle(ch, ctx):
             F = np.array(rows, float).sum(axis=0); fkey = [zp(r) for r in rows]
         else:
             fl = ch.flows(f'c{c}.feed', n, -2, 2)
+            if binary: fl = [v or 1.0 for v in fl]       # x / y specifications are defined for two-component feeds
             feed = mk(th, fl, fk, Tf, 101325.)
             F = np.array(fl, float); fkey = zp(fl)
         spec = ch.choice(f'c{c}.spec', ['xP', 'yP', 'xT', 'yT', 'VP'] if binary else
